@@ -730,7 +730,8 @@ BadResMore(s, ns, op, res) ==
        \* C10: the same bytes as the same content on a core table through the format's own wrapper
        \cup (IF "same" \in DOMAIN res /\ res.same.match # 1 THEN {"res.same"} ELSE {})
        \* C14: the same bytes as the first render of this content, format and decoration
-       \cup (IF "rep" \in DOMAIN res /\ res.rep.equal # 1 THEN {"res.rep"} ELSE {})
+       \* (and as a first-time render of the same table through a brand-new wrapper)
+       \cup (IF "rep" \in DOMAIN res /\ (res.rep.equal # 1 \/ res.rep.fresh # 1) THEN {"res.rep"} ELSE {})
        \* C06: a second, independent reader (encoding/xml, strict) sees the same token structure as the tokenizer
        \cup (IF "xmlok" \in DOMAIN res /\ res.xmlok = 0 THEN {"res.lexer"} ELSE {})
        \* C10 / C19: rendering through the auto package resolves the style as documented
@@ -754,7 +755,7 @@ BadRes(s, ns, op, res) ==
   {f \in {"res.panic", "res.regerr", "res.setprop", "res.metrics", "res.cblog"} :
      CASE f = "res.panic"   -> "panic" \in DOMAIN res
        [] f = "res.regerr"  -> op.op = "regcb" /\ "regerr" \in DOMAIN res /\ res.regerr # (IF RegOk(op) THEN 0 ELSE 1)
-       [] f = "res.setprop" -> op.op = "setprop" /\ "err" \in DOMAIN res /\ res.err # 0
+       [] f = "res.setprop" -> op.op = "setprop" /\ "err" \in DOMAIN res /\ (res.err # 0 \/ "nocolumn" \in DOMAIN res)
        [] f = "res.metrics" -> op.op = "measure" /\ "metrics" \in DOMAIN res /\ ~AgreeMetrics(op.parts, res.metrics)
        [] f = "res.cblog"   -> "cblog" \in DOMAIN res /\ ~AgreeCbLog(s, SlotsOfAll(s, op), res.cblog)}
   \cup BadResMore(s, ns, op, res)
